@@ -384,4 +384,28 @@ static inline void vp_lin_check(int32_t init) {
   VP_CHECK(n <= VP_HN && R[(1 << n) - 1] != 0, "history is not linearizable as a single atomic register");
 }
 
+
+/* ------------------------------------------------------------------ object / allocation tables (C13, C16): exactly-once bookkeeping */
+#define VP_TAB 8
+char* vp_tab_p[2][VP_TAB]; int vp_tab_used[2][VP_TAB]; int vp_tab_total[2];
+static inline int vp_tab_find(int t, char* p) { for (int i = 0; i < VP_TAB; i++) if (vp_tab_used[t][i] && vp_tab_p[t][i] == p) return i; return -1; }
+/* t = 0: constructed objects, t = 1: allocated blocks */
+static inline void vp_tab_add(int32_t t, char* p) {
+  VP_CHECK(p != 0, "table: construct/allocate at null");
+  VP_CHECK(vp_tab_find(t, p) < 0, "table: object constructed twice / block allocated twice at the same address");
+  int k = -1;
+  for (int i = 0; i < VP_TAB; i++) if (!vp_tab_used[t][i]) { k = i; break; }
+  VP_CHECK(k >= 0, "model bound: table full");
+  if (k >= 0) { vp_tab_used[t][k] = 1; vp_tab_p[t][k] = p; }
+  vp_tab_total[t]++;
+}
+static inline void vp_tab_del(int32_t t, char* p) {
+  int k = vp_tab_find(t, p);
+  if (t == 0) VP_CHECK(k >= 0, "destroy of an object that is not live (never constructed, null, or destroyed twice)");
+  else VP_CHECK(k >= 0, "deallocate of a block that is not allocated (null, foreign, or freed twice)");
+  if (k >= 0) vp_tab_used[t][k] = 0;
+}
+static inline int32_t vp_tab_count(int32_t t) { int c = 0; for (int i = 0; i < VP_TAB; i++) c += vp_tab_used[t][i]; return c; }
+static inline int32_t vp_tab_has(int32_t t, char* p) { return vp_tab_find(t, p) >= 0; }
+
 #endif
